@@ -36,6 +36,18 @@ def cases(seed, tier):
     r = rng(seed, "C04")
     quick = tier == "quick"
     L, L15, LR, LC, LN = (5, 2, 3, 3, 4) if quick else (9, 4, 6, 4, 5)
+    # --- the empty sequence is accepted by Hash under every type and flag pair: all clauses must hold for it too
+    for ty in ("DNA", "RNA", "PROTEIN"):
+        for ds in (("true", "false") if ty != "PROTEIN" else ("false",)):
+            for k in ("0", "1", "7"):
+                yield ["rot", "", ty, ds, k]
+        for circ in ("true", "false"):
+            if ty != "PROTEIN":
+                yield ["strand", "", ty, circ]
+            yield ["case", "", "ul", ty, circ, "false"]
+    for circ in ("true", "false"):
+        for ds in ("true", "false"):
+            yield ["rna", "", circ, ds]
     # --- exhaustive: rotation and strand clauses
     for w in words(ACGT, L, 1):
         for k in range(len(w)):
